@@ -274,6 +274,29 @@ def run(chk):
                 dd = float(round(rng.uniform(0, 1.5e5)))
                 px, py = cx + rng.uniform(-19, 19) * sc, cy + rng.uniform(-19, 19) * sc
                 aimed_profile.append(("plate with a repeated ridge coordinate", _cp(True, px, py, dd, 6371000.0, TOP) if sph else (px, py, TOP - dd), dd))
+        if wi % 12 == 10:
+            # a trench of two coordinates about a kilometre apart with a slab thousands of kilometres long, queried a quarter of the
+            # globe away: the closest-point iteration on the trench curve (flat at its first end, p0 + t^3 (p1 - p0)) may use up its
+            # steps - the query then ends in an exception, not in a crash
+            from wbgen import cart_point as _cp
+            lon0, lat0 = round(rng.uniform(-150, 150), 1), round(rng.uniform(-40, 40), 1)
+            dl = rng.choice([0.01, 0.005, 0.02])
+            along_lat = (wi // 12) % 2 == 1
+            c1 = [lon0, round(lat0 + dl, 3)] if along_lat else [round(lon0 + dl, 3), lat0]
+            wj = {"version": "1.1", "coordinate system": {"model": "spherical", "depth method": rng.choice(["begin segment", "starting point"])},
+                  "features": [{"model": rng.choice(["subducting plate", "fault"]), "name": "tiny", "coordinates": [[lon0, lat0], c1],
+                                "dip point": [lon0 + (0.0 if not along_lat else 20.0), lat0 - (20.0 if not along_lat else 0.0)],
+                                "segments": [{"length": float(round(rng.uniform(1.7e6, 4e6))), "thickness": [2e5], "angle": [float(rng.choice([20, 45, 70]))]}],
+                                "temperature models": [{"model": "uniform", "temperature": 600.0}]}]}
+            sph = True
+            aimed_profile = []
+            for _k in range(60):
+                dd = float(round(rng.uniform(0.0, 6e5)))
+                if along_lat:
+                    qlon, qlat = lon0 + rng.choice([-1, 1]) * rng.uniform(60, 120), lat0 + rng.uniform(0.0, 2.0)
+                else:
+                    qlon, qlat = lon0 + rng.uniform(0.0, 2.0), max(-89.5, min(89.5, lat0 + rng.choice([-1, 1]) * rng.uniform(60, 120)))
+                aimed_profile.append(("a quarter of the globe from a very short trench", _cp(True, qlon, qlat, dd, 6371000.0, TOP), dd))
         sanitize_numbers(wj)
         path = os.path.join(wdir, "w%d.wb" % wi)
         json.dump(wj, open(path, "w"))
